@@ -80,22 +80,22 @@ func WorkerMain(t *testing.T) {
 
 // ReplayFile is the self-contained description of one failing execution.
 type ReplayFile struct {
-	Property  string          `json:"property"`
-	World     string          `json:"world"`
-	Rule      string          `json:"rule"`
-	Feature   string          `json:"feature"`
-	Detail    string          `json:"detail"`
-	Seed      uint64          `json:"seed"`
-	Tier      string          `json:"tier"`
-	GenVals   []uint32        `json:"gen_vals"`
-	SchedVals []uint32        `json:"sched_vals"`
-	TraceHash string          `json:"trace_hash"`
-	Case      json.RawMessage `json:"case"`
-	Trace     []string        `json:"trace"`
-	Notes     []string        `json:"notes,omitempty"`
-	TreeHash  string          `json:"tree_hash"`
-	Toolchain string          `json:"toolchain"`
-	ShrunkFrom string         `json:"shrunk_from,omitempty"`
+	Property   string          `json:"property"`
+	World      string          `json:"world"`
+	Rule       string          `json:"rule"`
+	Feature    string          `json:"feature"`
+	Detail     string          `json:"detail"`
+	Seed       uint64          `json:"seed"`
+	Tier       string          `json:"tier"`
+	GenVals    []uint32        `json:"gen_vals"`
+	SchedVals  []uint32        `json:"sched_vals"`
+	TraceHash  string          `json:"trace_hash"`
+	Case       json.RawMessage `json:"case"`
+	Trace      []string        `json:"trace"`
+	Notes      []string        `json:"notes,omitempty"`
+	TreeHash   string          `json:"tree_hash"`
+	Toolchain  string          `json:"toolchain"`
+	ShrunkFrom string          `json:"shrunk_from,omitempty"`
 }
 
 func readReplay(path string) (*ReplayFile, error) {
